@@ -128,7 +128,7 @@ PLANS = {
         'mc': {'quick': [('base', dict(invariants=['Inv_C04'], prmset='PrmBaseQ', ceilos=('a', 'b'), nt=2, maxper=1))],
                'thorough': [('base', dict(invariants=['Inv_C04'], prmset='PrmBase', ceilos=('a', 'b'), nt=2, maxper=1)),
                             ('code', dict(invariants=['Inv_C04'], prmset='PrmBaseQ', ceilos=('a', 'b'), nt=2, lattice='LatticeB', maxper=1)),
-                            ('base3', dict(invariants=['Inv_C04'], prmset='PrmBase', ceilos=('a',), nt=4, orders=('asc', 'desc')))]},
+                            ('base3', dict(invariants=['Inv_C04'], prmset='PrmBaseQ', ceilos=('a',), nt=4, orders=('asc', 'desc')))]},
         'families': {'quick': [('F3', fam_bands, 500), ('F3b', fam_split, 150), ('F3c', fam_boundary, 300), ('Rcross', fam_crossing, 60), ('Rtiny', fam_rand('tiny'), 300), ('Rmid', fam_rand('mid'), 60)],
                      'thorough': [('F3', fam_bands, None), ('F3b', fam_split, 3000), ('F3c', fam_boundary, 4000), ('Rtiny', fam_rand('tiny'), 4000), ('Rmid', fam_rand('mid'), 600), ('Rbig', fam_rand('big'), 60)]},
         'marks': ['N_lookback', 'N_baseties', 'N_excl', 'N_fallback', 'N_interp', 'N_above10k', 'N_floattie', 'N_nearboundary'],
